@@ -44,11 +44,11 @@ theorem remAdds_nodup {adds : List H} (h : adds.Nodup) (remembers : List Nat) :
   exact List.Nodup.sublist h2 h1
 
 section ctx
-variable {F : Forest H} {adds : List H} (cr : CR H)
+variable {F : Forest H} {adds : List H} (nz : NZ H)
   (hN : F.numLeaves + adds.length ≤ 2 ^ 63)
   (hndG : (F.addMany adds).liveLeaves.Nodup)
   (hleaf : ∀ x ∈ (F.addMany adds).liveLeaves, x ≠ (zero : H) ∧ ∀ a b : H, x ≠ ph a b)
-include cr hN hndG hleaf
+include nz hN hndG hleaf
 
 theorem numLeaves_G : (F.addMany adds).numLeaves = F.numLeaves + adds.length := by
   simp [Forest.addMany, Forest.numLeaves]
@@ -71,7 +71,7 @@ theorem destroySpec_of {L : List Nat} (hasc : AscFrom 0 L)
   asc := hasc
   mem := by
     intro h
-    rw [hmem h, chunkHash_eq_zero_iff cr.nonzero F.slots (slots_nonzero cr hN hndG hleaf)]
+    rw [hmem h, chunkHash_eq_zero_iff nz.nonzero F.slots (slots_nonzero nz hN hndG hleaf)]
     rfl
 
 theorem G_live_old {x : H} (hx : x ∈ F.liveLeaves) : x ∈ (F.addMany adds).liveLeaves := by
@@ -91,17 +91,17 @@ theorem old_leaf_pos {L : List Nat} (hL : DestroySpec F.slots adds.length L) {x 
     (F.addMany adds).posOf x = some (addMove F.numLeaves adds.length L p) := by
   obtain ⟨h0, s⟩ := posOf_sub hp
   obtain ⟨T, _, _, _, g⟩ := add_sub hN hL s
-  rw [Spec.posOf_eq_some_iff (by rw [numLeaves_G cr hN hndG hleaf]; omega) hndG]
+  rw [Spec.posOf_eq_some_iff (by rw [numLeaves_G nz hN hndG hleaf]; omega) hndG]
   exact g.node_mem
 
 /-- a node of the new forest that carries the hash of a live leaf is that leaf -/
 theorem leaf_hash_pos {a : H} (ha : a ∈ (F.addMany adds).liveLeaves) {q : Pos} {lf : Bool}
     (hq : (q, a, lf) ∈ (F.addMany adds).nodes) : (F.addMany adds).posOf a = some q := by
   have hlt : (F.addMany adds).numLeaves < 2 ^ 64 := by
-    rw [numLeaves_G cr hN hndG hleaf]; omega
+    rw [numLeaves_G nz hN hndG hleaf]; omega
   obtain ⟨p, hp⟩ := Spec.posOf_isSome_of_live hlt ha
   have hm := Spec.posOf_some_mem hp
-  have := (nodes_hash_unique cr _ hlt hndG (fun x hx => (hleaf x hx).2) p q a true lf
+  have := (nodes_leaf_hash_unique _ hlt hndG (fun x hx => (hleaf x hx).2) p q a lf
     (hleaf a ha).1 hm hq).1
   rw [← this]
   exact hp
@@ -111,14 +111,14 @@ end ctx
 /-! ### the moved targets and proof, the merged node list -/
 
 section lists
-variable {F : Forest H} {adds : List H} (cr : CR H)
+variable {F : Forest H} {adds : List H} (nz : NZ H)
   (hN : F.numLeaves + adds.length ≤ 2 ^ 63)
   (hndG : (F.addMany adds).liveLeaves.Nodup)
   (hleaf : ∀ x ∈ (F.addMany adds).liveLeaves, x ≠ (zero : H) ∧ ∀ a b : H, x ≠ ph a b)
   {L : List Nat} (hL : DestroySpec F.slots adds.length L)
   {K' : List H} {tgF : List Pos} {hsF : List H} (hcF : F.canon K' = some (tgF, hsF))
   (hK' : K'.Nodup)
-include cr hN hndG hleaf hL hcF hK'
+include nz hN hndG hleaf hL hcF hK'
 
 /-- the cached targets, moved -/
 def movedTargets (F : Forest H) (adds : List H) (L : List Nat) (K' : List H) : HP H :=
@@ -140,7 +140,7 @@ theorem hndF' : F.liveLeaves.Nodup := by
 theorem mem_movedTargets (z : U64 × H) :
     z ∈ movedTargets F adds L K' ↔
       ∃ x ∈ K', z = (E (F.addMany adds).rows (posD (F.addMany adds) x), x) := by
-  have hn := hnF cr hN hndG hleaf hL hcF hK'
+  have hn := hnF nz hN hndG hleaf hL hcF hK'
   unfold movedTargets sortHP
   rw [ProofOps.mem_sortBy, List.mem_map]
   constructor
@@ -150,34 +150,34 @@ theorem mem_movedTargets (z : U64 × H) :
     have e : y.1 = p := by rw [hy1]; unfold posD; rw [hp]; rfl
     refine ⟨y.2, hyK, ?_⟩
     unfold posD
-    rw [old_leaf_pos cr hN hndG hleaf hL hp, e]
+    rw [old_leaf_pos nz hN hndG hleaf hL hp, e]
     rfl
   · rintro ⟨x, hx, rfl⟩
     refine ⟨(posD F x, x), mem_sortedPairs hn hcF hK' hx, ?_⟩
     obtain ⟨p, hp⟩ := (canon_spec hcF).2.1 x hx
     simp only
     unfold posD
-    rw [old_leaf_pos cr hN hndG hleaf hL hp, hp]
+    rw [old_leaf_pos nz hN hndG hleaf hL hp, hp]
     rfl
 
 theorem posG_valid {x : H} (hx : x ∈ (F.addMany adds).liveLeaves) :
     ∃ h, SubAtT (F.addMany adds) h (posD (F.addMany adds) x) (.leaf x) := by
   obtain ⟨p, hp⟩ := Spec.posOf_isSome_of_live (by
-    rw [numLeaves_G cr hN hndG hleaf]; omega) hx
+    rw [numLeaves_G nz hN hndG hleaf]; omega) hx
   unfold posD
   rw [hp]
   exact posOf_sub hp
 
 theorem hnG : (F.addMany adds).numLeaves ≤ 2 ^ 63 := by
-  rw [numLeaves_G cr hN hndG hleaf]; exact hN
+  rw [numLeaves_G nz hN hndG hleaf]; exact hN
 
 theorem K'_live {x : H} (hx : x ∈ K') : x ∈ F.liveLeaves := by
   obtain ⟨h, s⟩ := posD_sub hcF hx
   exact s.leaves_live _ (by simp [CTree.leaves])
 
 theorem movedTargets_sorted : (movedTargets F adds L K').Pairwise (fun a b => a.1 < b.1) := by
-  have hn := hnF cr hN hndG hleaf hL hcF hK'
-  have hG := hnG cr hN hndG hleaf hL hcF hK'
+  have hn := hnF nz hN hndG hleaf hL hcF hK'
+  have hG := hnG nz hN hndG hleaf hL hcF hK'
   unfold movedTargets sortHP
   apply SortBy.sortBy_strict
   rw [List.map_map]
@@ -195,7 +195,7 @@ theorem movedTargets_sorted : (movedTargets F adds L K').Pairwise (fun a b => a.
   obtain ⟨T1, _, _, _, g1⟩ := add_sub hN hL sa
   obtain ⟨T2, _, _, _, g2⟩ := add_sub hN hL sb
   have e' := E_inj (rows_le_63 hG) g1.inF.valid g2.inF.valid e
-  have e1 := addMove_inj hN hL (hndF' cr hN hndG hleaf hL hcF hK') sa sb e'
+  have e1 := addMove_inj hN hL (hndF' nz hN hndG hleaf hL hcF hK') sa sb e'
   rw [e1] at sa
   have := (sa.unique sb).2
   injection this with this
@@ -213,7 +213,7 @@ theorem mem_movedProof (z : U64 × H) :
   · rintro ⟨q0, hq0, rfl⟩; exact ⟨q0, hq0, rfl⟩
 
 theorem movedProof_sorted : (movedProof F adds L tgF).Pairwise (fun a b => a.1 < b.1) := by
-  have hG := hnG cr hN hndG hleaf hL hcF hK'
+  have hG := hnG nz hN hndG hleaf hL hcF hK'
   have tok := canon_targetsOK hcF
   unfold movedProof sortHP ppPairs
   apply SortBy.sortBy_strict
@@ -229,12 +229,12 @@ theorem movedProof_sorted : (movedProof F adds L tgF).Pairwise (fun a b => a.1 <
   obtain ⟨T1, _, _, _, g1⟩ := add_sub hN hL s1
   obtain ⟨T2, _, _, _, g2⟩ := add_sub hN hL s2
   have e' := E_inj (rows_le_63 hG) g1.inF.valid g2.inF.valid e
-  exact addMove_inj hN hL (hndF' cr hN hndG hleaf hL hcF hK') s1 s2 e'
+  exact addMove_inj hN hL (hndF' nz hN hndG hleaf hL hcF hK') s1 s2 e'
 
 /-- every entry of the moved proof is a node of the new forest -/
 theorem movedProof_node {z : U64 × H} (hz : z ∈ movedProof F adds L tgF) :
     ∃ q T t, z.1 = E (F.addMany adds).rows q ∧ SubAtT (F.addMany adds) T q t ∧ z.2 = t.hash := by
-  obtain ⟨q0, hq0, rfl⟩ := (mem_movedProof cr hN hndG hleaf hL hcF hK' z).1 hz
+  obtain ⟨q0, hq0, rfl⟩ := (mem_movedProof nz hN hndG hleaf hL hcF hK' z).1 hz
   obtain ⟨h1, t1, s1⟩ := pp_node (canon_targetsOK hcF) hq0
   obtain ⟨T1, _, _, _, g1⟩ := add_sub hN hL s1
   exact ⟨_, T1, t1, rfl, g1, by rw [s1.nodeAt]; rfl⟩
@@ -244,7 +244,7 @@ end lists
 /-! ### the merged node list, the remembered additions, the new targets -/
 
 section merged
-variable {F : Forest H} {adds : List H} (cr : CR H)
+variable {F : Forest H} {adds : List H} (nz : NZ H)
   (hN : F.numLeaves + adds.length ≤ 2 ^ 63)
   (hndG : (F.addMany adds).liveLeaves.Nodup)
   (hleaf : ∀ x ∈ (F.addMany adds).liveLeaves, x ≠ (zero : H) ∧ ∀ a b : H, x ≠ ph a b)
@@ -256,7 +256,7 @@ variable {F : Forest H} {adds : List H} (cr : CR H)
     NewAddSpec F.numLeaves (F.slots ++ adds.map some) (pos, h))
   (hupd2 : upd.Pairwise (fun a b => a.1 < b.1))
   (remembers : List Nat)
-include cr hN hndG hleaf hL hcF hK' hupd1 hupd2
+include nz hN hndG hleaf hL hcF hK' hupd1 hupd2
 
 /-- `newNodes` after merging in the moved proof -/
 def mergedNodes (F : Forest H) (adds : List H) (L : List Nat) (tgF : List Pos) (upd : HP H) : HP H :=
@@ -264,7 +264,7 @@ def mergedNodes (F : Forest H) (adds : List H) (L : List Nat) (tgF : List Pos) (
 
 theorem mergedNodes_sorted :
     (mergedNodes F adds L tgF upd).Pairwise (fun a b => a.1 < b.1) :=
-  mergeHP_sorted _ _ hupd2 (movedProof_sorted cr hN hndG hleaf hL hcF hK')
+  mergeHP_sorted _ _ hupd2 (movedProof_sorted nz hN hndG hleaf hL hcF hK')
 
 theorem slen : (F.slots ++ adds.map some).length = F.numLeaves + adds.length := by
   simp [Forest.numLeaves]
@@ -273,14 +273,14 @@ theorem upd_node {p : U64} {h : H} (hp : (p, h) ∈ upd) :
     ∃ q lf, p = E (F.addMany adds).rows q ∧ Valid (F.addMany adds).rows q ∧
       (q, h, lf) ∈ (F.addMany adds).nodes := by
   obtain ⟨pos, rfl, hs⟩ := (hupd1 p h).1 hp
-  have hlen := slen cr hN hndG hleaf hL hcF hK' hupd1 hupd2
+  have hlen := slen nz hN hndG hleaf hL hcF hK' hupd1 hupd2
   obtain ⟨lf, hm⟩ := newAddSpec_mem_nodes F.numLeaves (F.slots ++ adds.map some)
     (by rw [hlen]; omega) pos h hs
   have hv := isNode_valid (F.slots ++ adds.map some) (R := (F.addMany adds).rows) (by
     rw [hlen]
     have := SpecView.le_two_pow_forestRows (F.numLeaves + adds.length)
     unfold Forest.rows
-    rw [numLeaves_G cr hN hndG hleaf]
+    rw [numLeaves_G nz hN hndG hleaf]
     exact this) hs.isNode
   exact ⟨pos, lf, rfl, hv, hm⟩
 
@@ -290,8 +290,8 @@ theorem merged_node {z : U64 × H} (hz : z ∈ mergedNodes F adds L tgF upd) :
       (q, z.2, lf) ∈ (F.addMany adds).nodes := by
   unfold mergedNodes at hz
   rcases ProofOps.mem_mergeHP _ _ _ hz with h | h
-  · exact upd_node cr hN hndG hleaf hL hcF hK' hupd1 hupd2 (p := z.1) (h := z.2) h
-  · obtain ⟨q, T, t, h1, s, h2⟩ := movedProof_node cr hN hndG hleaf hL hcF hK' h
+  · exact upd_node nz hN hndG hleaf hL hcF hK' hupd1 hupd2 (p := z.1) (h := z.2) h
+  · obtain ⟨q, T, t, h1, s, h2⟩ := movedProof_node nz hN hndG hleaf hL hcF hK' h
     exact ⟨q, _, h1, s.inF.valid, by rw [h2]; exact s.node_mem⟩
 
 /-- the remembered additions with their positions -/
@@ -303,9 +303,9 @@ theorem mem_remembersWithHash (z : U64 × H) :
   constructor
   · rintro ⟨hz, ha⟩
     obtain ⟨q, lf, h1, _, h2⟩ :=
-      merged_node cr hN hndG hleaf hL hcF hK' hupd1 hupd2 hz
-    have hp := leaf_hash_pos cr hN hndG hleaf
-      (G_live_new cr hN hndG hleaf (remAdds_sub ha)) h2
+      merged_node nz hN hndG hleaf hL hcF hK' hupd1 hupd2 hz
+    have hp := leaf_hash_pos nz hN hndG hleaf
+      (G_live_new nz hN hndG hleaf (remAdds_sub ha)) h2
     refine ⟨z.2, ha, ?_⟩
     unfold posD
     rw [hp]
@@ -318,20 +318,20 @@ theorem mem_remembersWithHash (z : U64 × H) :
     rw [e] at hs
     have hin : (E (F.addMany adds).rows pos, a) ∈ upd := (hupd1 _ _).2 ⟨pos, rfl, hs⟩
     obtain ⟨q, lf, h1, hv, h2⟩ :=
-      upd_node cr hN hndG hleaf hL hcF hK' hupd1 hupd2 hin
-    have hp := leaf_hash_pos cr hN hndG hleaf (G_live_new cr hN hndG hleaf haa) h2
+      upd_node nz hN hndG hleaf hL hcF hK' hupd1 hupd2 hin
+    have hp := leaf_hash_pos nz hN hndG hleaf (G_live_new nz hN hndG hleaf haa) h2
     unfold posD
     rw [hp]
     simp only [Option.getD_some]
     rw [← h1]
     unfold mergedNodes
-    rw [mem_mergeHP_iff _ _ hupd2 (movedProof_sorted cr hN hndG hleaf hL hcF hK')]
+    rw [mem_mergeHP_iff _ _ hupd2 (movedProof_sorted nz hN hndG hleaf hL hcF hK')]
     exact Or.inl hin
 
 theorem remembersWithHash_sorted :
     (hashSubsetHP (mergedNodes F adds L tgF upd) (remAdds adds remembers)).Pairwise
       (fun a b => a.1 < b.1) :=
-  hashSubsetHP_sorted _ _ (mergedNodes_sorted cr hN hndG hleaf hL hcF hK' hupd1 hupd2)
+  hashSubsetHP_sorted _ _ (mergedNodes_sorted nz hN hndG hleaf hL hcF hK' hupd1 hupd2)
 
 /-- the new target list: the remembered additions merged with the moved old targets -/
 theorem new_targets_eq {tg2 : List Pos} {hs2 : List H}
@@ -341,16 +341,16 @@ theorem new_targets_eq {tg2 : List Pos} {hs2 : List H}
         (movedTargets F adds L K') =
       (sortedPairs (F.addMany adds) (K' ++ remAdds adds remembers)).map
         (enc2 (F.addMany adds).rows) := by
-  have hG := hnG cr hN hndG hleaf hL hcF hK'
-  have hs1 := remembersWithHash_sorted cr hN hndG hleaf hL hcF hK' hupd1 hupd2 remembers
-  have hs2' := movedTargets_sorted cr hN hndG hleaf hL hcF hK'
+  have hG := hnG nz hN hndG hleaf hL hcF hK'
+  have hs1 := remembersWithHash_sorted nz hN hndG hleaf hL hcF hK' hupd1 hupd2 remembers
+  have hs2' := movedTargets_sorted nz hN hndG hleaf hL hcF hK'
   apply eq_of_keysorted (mergeHP_sorted _ _ hs1 hs2')
   · rw [List.pairwise_map]
     exact sortedPairs_keys hG hc2 hnd2
   intro z
   rw [mem_mergeHP_iff _ _ hs1 hs2',
-    mem_remembersWithHash cr hN hndG hleaf hL hcF hK' hupd1 hupd2 remembers,
-    mem_movedTargets cr hN hndG hleaf hL hcF hK', List.mem_map]
+    mem_remembersWithHash nz hN hndG hleaf hL hcF hK' hupd1 hupd2 remembers,
+    mem_movedTargets nz hN hndG hleaf hL hcF hK', List.mem_map]
   constructor
   · rintro (⟨a, ha, rfl⟩ | ⟨⟨x, hx, rfl⟩, _⟩)
     · exact ⟨_, mem_sortedPairs hG hc2 hnd2 (List.mem_append_right _ ha), rfl⟩
@@ -363,19 +363,19 @@ theorem new_targets_eq {tg2 : List Pos} {hs2 : List H}
       intro hpos
       obtain ⟨w, hw, hw1⟩ := mem_positions.1 hpos
       obtain ⟨a, ha, rfl⟩ :=
-        (mem_remembersWithHash cr hN hndG hleaf hL hcF hK' hupd1 hupd2 remembers w).1 hw
+        (mem_remembersWithHash nz hN hndG hleaf hL hcF hK' hupd1 hupd2 remembers w).1 hw
       simp only [enc2] at hw1
-      obtain ⟨h1, s1⟩ := posG_valid cr hN hndG hleaf hL hcF hK'
-        (G_live_new cr hN hndG hleaf (remAdds_sub ha))
-      obtain ⟨h2, s2⟩ := posG_valid cr hN hndG hleaf hL hcF hK'
-        (G_live_old cr hN hndG hleaf (K'_live cr hN hndG hleaf hL hcF hK' hK))
+      obtain ⟨h1, s1⟩ := posG_valid nz hN hndG hleaf hL hcF hK'
+        (G_live_new nz hN hndG hleaf (remAdds_sub ha))
+      obtain ⟨h2, s2⟩ := posG_valid nz hN hndG hleaf hL hcF hK'
+        (G_live_old nz hN hndG hleaf (K'_live nz hN hndG hleaf hL hcF hK' hK))
       rw [hy1] at hw1
       have e := E_inj (rows_le_63 hG) s1.inF.valid s2.inF.valid hw1
       rw [e] at s1
       have := (s1.unique s2).2
       injection this with this
       rw [this] at ha
-      exact old_not_new cr hN hndG hleaf (K'_live cr hN hndG hleaf hL hcF hK' hK) (remAdds_sub ha)
+      exact old_not_new nz hN hndG hleaf (K'_live nz hN hndG hleaf hL hcF hK' hK) (remAdds_sub ha)
     · left
       exact ⟨y.2, hR, by simp only [enc2]; rw [hy1]⟩
 
@@ -386,8 +386,8 @@ theorem lookup_merged {K'' : List H} {tgG : List Pos} {hsG : List H}
     (hq : q ∈ (F.addMany adds).proofPositions tgG) :
     lookupHP (mergedNodes F adds L tgF upd) (E (F.addMany adds).rows q) =
       some (((F.addMany adds).nodeAt q).getD zero) := by
-  have hG := hnG cr hN hndG hleaf hL hcF hK'
-  have hsMP := movedProof_sorted cr hN hndG hleaf hL hcF hK'
+  have hG := hnG nz hN hndG hleaf hL hcF hK'
+  have hsMP := movedProof_sorted nz hN hndG hleaf hL hcF hK'
   unfold mergedNodes
   rw [lookupHP_mergeHP _ _ hupd2 hsMP]
   obtain ⟨hq0, tq, sq⟩ := pp_node (canon_targetsOK hcG) hq
@@ -398,7 +398,7 @@ theorem lookup_merged {K'' : List H} {tgG : List Pos} {hsG : List H}
     rw [lookupHP_of_mem hupd2 hin, hh]
     rfl
   · have hin : (E (F.addMany adds).rows q, (F.nodeAt q0).getD zero) ∈ movedProof F adds L tgF := by
-      rw [mem_movedProof cr hN hndG hleaf hL hcF hK']
+      rw [mem_movedProof nz hN hndG hleaf hL hcF hK']
       exact ⟨q0, hq0m, by rw [hqe]⟩
     cases hu : lookupHP upd (E (F.addMany adds).rows q) with
     | none =>
@@ -407,7 +407,7 @@ theorem lookup_merged {K'' : List H} {tgG : List Pos} {hsG : List H}
     | some h' =>
       simp only [Option.orElse_some]
       have hm := lookupHP_eq_some hu
-      obtain ⟨q', lf, h1, hv, h2⟩ := upd_node cr hN hndG hleaf hL hcF hK' hupd1 hupd2 hm
+      obtain ⟨q', lf, h1, hv, h2⟩ := upd_node nz hN hndG hleaf hL hcF hK' hupd1 hupd2 hm
       have e := E_inj (rows_le_63 hG) sq.inF.valid hv h1
       rw [← e] at h2
       have := nodeAt_of_mem h2
@@ -436,7 +436,7 @@ proof is the canonical proof of `K'` in `F` with targets ascending (as `updatePr
 it); `upd`, `td` are `NewAdd`, `ToDestroy` as specified by C11 (`AddDataSpec`); the remember
 indexes ascend.  The result is the canonical proof in `F.addMany adds` of `K'` plus the
 remembered additions, targets ascending. -/
-theorem updateProofAdd_canonical {F : Forest H} {adds : List H} (cr : CR H)
+theorem updateProofAdd_canonical {F : Forest H} {adds : List H} (nz : NZ H)
     (hN : F.numLeaves + adds.length ≤ 2 ^ 63)
     (hndG : (F.addMany adds).liveLeaves.Nodup)
     (hleaf : ∀ x ∈ (F.addMany adds).liveLeaves, x ≠ (zero : H) ∧ ∀ a b : H, x ≠ ph a b)
@@ -450,7 +450,7 @@ theorem updateProofAdd_canonical {F : Forest H} {adds : List H} (cr : CR H)
           (BitVec.ofNat 64 F.numLeaves) td =
         .ok (⟨tgG.map (E (F.addMany adds).rows), hsG⟩, K'') := by
   have hn : F.numLeaves ≤ 2 ^ 63 := by omega
-  have hnumG := numLeaves_G cr hN hndG hleaf
+  have hnumG := numLeaves_G nz hN hndG hleaf
   have hG : (F.addMany adds).numLeaves ≤ 2 ^ 63 := by rw [hnumG]; exact hN
   have hR : (F.addMany adds).rows = forestRows (F.numLeaves + adds.length) := by
     unfold Forest.rows; rw [hnumG]
@@ -467,7 +467,7 @@ theorem updateProofAdd_canonical {F : Forest H} {adds : List H} (cr : CR H)
     exact (List.nodup_append.1 this).1
   -- the update data
   obtain ⟨hupd1, hupd2, _, L, htd, hLasc, hLmem⟩ := hspec
-  have hL : DestroySpec F.slots adds.length L := destroySpec_of cr hN hndG hleaf hLasc hLmem
+  have hL : DestroySpec F.slots adds.length L := destroySpec_of nz hN hndG hleaf hLasc hLmem
   have hupd1' : ∀ p h, (p, h) ∈ upd ↔ ∃ pos : Pos, p = E (F.addMany adds).rows pos ∧
       NewAddSpec F.numLeaves (F.slots ++ adds.map some) (pos, h) := by
     intro p h
@@ -487,12 +487,12 @@ theorem updateProofAdd_canonical {F : Forest H} {adds : List H} (cr : CR H)
       exact (List.nodup_append.1 this).2.1
     · intro a ha b hb hab
       subst hab
-      exact old_not_new cr hN hndG hleaf (K'_live cr hN hndG hleaf hL hcF hK' ha) (remAdds_sub hb)
+      exact old_not_new nz hN hndG hleaf (K'_live nz hN hndG hleaf hL hcF hK' ha) (remAdds_sub hb)
   have hlive2 : ∀ x ∈ K' ++ remAdds adds remembers, x ∈ (F.addMany adds).liveLeaves := by
     intro x hx
     rcases List.mem_append.1 hx with h | h
-    · exact G_live_old cr hN hndG hleaf (K'_live cr hN hndG hleaf hL hcF hK' h)
-    · exact G_live_new cr hN hndG hleaf (remAdds_sub h)
+    · exact G_live_old nz hN hndG hleaf (K'_live nz hN hndG hleaf hL hcF hK' h)
+    · exact G_live_new nz hN hndG hleaf (remAdds_sub h)
   obtain ⟨tg2, hs2, hc2⟩ := CanonTotal.canon_total hG hlive2
   -- the sorted new cached set
   let KP2 := sortedPairs (F.addMany adds) (K' ++ remAdds adds remembers)
@@ -544,7 +544,7 @@ theorem updateProofAdd_canonical {F : Forest H} {adds : List H} (cr : CR H)
       (by
         intro x hx
         obtain ⟨hxK, _, _⟩ := sortedPairs_mem hn hcF hK' hx
-        exact (hleaf _ (G_live_old cr hN hndG hleaf (K'_live cr hN hndG hleaf hL hcF hK' hxK))).1)
+        exact (hleaf _ (G_live_old nz hN hndG hleaf (K'_live nz hN hndG hleaf hL hcF hK' hxK))).1)
       (by
         intro x hx
         obtain ⟨_, _, _, s⟩ := sortedPairs_mem hn hcF hK' hx
@@ -559,7 +559,7 @@ theorem updateProofAdd_canonical {F : Forest H} {adds : List H} (cr : CR H)
         exact ProofOps.u64_le_of_lt ((E_lt_iff (rows_le_63 hG) (valid_mono hr0R sa.inF.valid)
           (valid_mono hr0R sb.inF.valid)).2 hab))
       (by
-        have h2 := keys_nodup_of_sorted (movedTargets_sorted cr hN hndG hleaf hL hcF hK')
+        have h2 := keys_nodup_of_sorted (movedTargets_sorted nz hN hndG hleaf hL hcF hK')
         rw [List.map_map] at h2
         rw [← hR]
         exact h2)
@@ -578,8 +578,8 @@ theorem updateProofAdd_canonical {F : Forest H} {adds : List H} (cr : CR H)
         obtain ⟨h, t, s⟩ := pp_node tok hq
         simp only
         rw [s.nodeAt]
-        exact hash_ne_zero cr.nonzero (fun l hl =>
-          (hleaf l (G_live_old cr hN hndG hleaf (s.leaves_live l hl))).1))
+        exact hash_ne_zero nz.nonzero (fun l hl =>
+          (hleaf l (G_live_old nz hN hndG hleaf (s.leaves_live l hl))).1))
       (by
         intro x hx
         unfold ppPairs at hx
@@ -597,7 +597,7 @@ theorem updateProofAdd_canonical {F : Forest H} {adds : List H} (cr : CR H)
         exact ProofOps.u64_le_of_lt ((E_lt_iff (rows_le_63 hG)
           (valid_mono hr0R (pp_valid tok ha)) (valid_mono hr0R (pp_valid tok hb))).2 hab))
       (by
-        have h2 := keys_nodup_of_sorted (movedProof_sorted cr hN hndG hleaf hL hcF hK')
+        have h2 := keys_nodup_of_sorted (movedProof_sorted nz hN hndG hleaf hL hcF hK')
         rw [List.map_map] at h2
         rw [← hR]
         exact h2)
@@ -622,7 +622,7 @@ theorem updateProofAdd_canonical {F : Forest H} {adds : List H} (cr : CR H)
       (mergedNodes F adds L tgF upd) [] =
       (ppPairs (F.addMany adds) tgG).map (enc2 (F.addMany adds).rows) := by
     rw [upaCollect_spec _ _ _ (pp_keys hG tokG)
-      (mergedNodes_sorted cr hN hndG hleaf hL hcF hK' hupd1' hupd2), List.nil_append,
+      (mergedNodes_sorted nz hN hndG hleaf hL hcF hK' hupd1' hupd2), List.nil_append,
       List.filterMap_map]
     unfold ppPairs
     rw [List.map_map]
@@ -630,7 +630,7 @@ theorem updateProofAdd_canonical {F : Forest H} {adds : List H} (cr : CR H)
     apply filterMap_congr'
     intro q hq
     simp only [Function.comp]
-    rw [lookup_merged cr hN hndG hleaf hL hcF hK' hupd1' hupd2 remembers hcG hmemK'' hq]
+    rw [lookup_merged nz hN hndG hleaf hL hcF hK' hupd1' hupd2 remembers hcG hmemK'' hq]
     rfl
   have hfold := foldl_pair
     (fun (st : HP H) (d : Pos) => getNewPositions [E (F.addMany adds).rows d] st
@@ -649,7 +649,7 @@ theorem updateProofAdd_canonical {F : Forest H} {adds : List H} (cr : CR H)
   rw [show ((adds.zipIdx).filter (fun a => decide (a.2 ∈ remembers))).map (·.1) =
     remAdds adds remembers from rfl,
     show mergeHP upd (movedProof F adds L tgF) = mergedNodes F adds L tgF upd from rfl,
-    new_targets_eq cr hN hndG hleaf hL hcF hK' hupd1' hupd2 remembers hc2 hnd2]
+    new_targets_eq nz hN hndG hleaf hL hcF hK' hupd1' hupd2 remembers hc2 hnd2]
   simp only [positions_enc2, e9, e10]
   rw [sortHP_eq_self_of_strict (ppPairs_keys hG tokG)]
   show Out.ok _ = Out.ok _
